@@ -184,6 +184,29 @@ def suite_user_leaves(ctx: Ctx, eng: morph.Engine, n_specs: int, depth: int):
                            f"(no user leaf raises an unexpected error on any sub-datum)")
 
 
+def suite_layouts(ctx: Ctx, n: int):
+    """models behind name_mapping layouts that spread their fields over nested mappings (the generated loader re-bases the
+    trails of errors raised inside container / model fields): invalid input in every subset of positions, all three modes,
+    must still end in a LoadError - the trail bookkeeping itself must not raise"""
+    from adaptix.load_error import LoadError
+
+    from harness.props import c05
+
+    def oracle(ctx_, retorts, cls, datum, case):
+        for m, r in retorts.items():
+            try:
+                r.load(datum, cls)
+                out = "ok"
+            except LoadError:
+                out = "err"
+            except Exception as e:  # noqa: BLE001
+                ctx_.fail(f"escape:{scalars.exc_name(type(e))}:layout", f"load of an invalid datum through a flattened name_mapping layout "
+                          f"[{m.name}] lets {type(e).__name__} escape: {e}"[:300], dict(case, mode=m.name))
+                return
+            ctx_.dist[f"layout-{m.name}:{out}"] += 1
+    c05.flattened_multi_fault(ctx, n, oracle=oracle)
+
+
 def set_of_any(ctx: Ctx, eng: morph.Engine):
     """a type Python CAN hold values of, fed unhashable elements"""
     from typing import Any
@@ -202,6 +225,7 @@ def run(ctx: Ctx):
     suite_scalars(ctx, eng)
     suite_containers(ctx, eng, n_specs=ctx.budget(120, 1500), depth=3 if ctx.tier == "quick" else 4)
     suite_user_leaves(ctx, eng, n_specs=ctx.budget(150, 1500), depth=3)
+    suite_layouts(ctx, ctx.budget(60, 1000))
     set_of_any(ctx, eng)
     class_object_datum(ctx, eng)
 
@@ -212,6 +236,8 @@ def search(ctx: Ctx):
     suite_scalars(ctx, eng)
     if not ctx.failures:
         suite_containers(ctx, eng, n_specs=600, depth=4)
+    if not ctx.failures:
+        suite_layouts(ctx, 600)
 
 
 def class_object_datum(ctx: Ctx, eng: morph.Engine):
